@@ -17,7 +17,7 @@ from ..vlib.report import MachineryError, Report
 from . import c12
 
 util.ensure_repo_importable()
-from strengths import RDGridSpace, UnitsSystem, kinetics, rdscript_from_dict, simulate_script  # noqa: E402
+from strengths import RDGridSpace, UnitArray, Units, UnitsDimensions, UnitsSystem, kinetics, rdscript_from_dict, simulate_script  # noqa: E402
 from strengths.coarsegrain import coarsegrain_system  # noqa: E402
 
 PROP = "C04"
@@ -51,6 +51,15 @@ def _run(d):
             sys3 = sc.system.copy()
             sys3.state = [float(v) for v in sys3.state.convert(sys3.units_system).value]
             x0a = [float(v) for v in sys3.state.convert(us0).value]
+            # the exported right-hand side (one-cell systems), asked in the system's own units and in the default ones
+            dxf = None
+            if sc.system.space.size() == 1:
+                dxf = []
+                for usx in (sc.system.units_system, us0):
+                    xin = [float(v) for v in sc.system.state.convert(usx).value]
+                    r_ = sc.system.make_dxdtf(units_system=usx)(0.0, xin)
+                    dxf.append([float(v) for v in UnitArray(np.array(r_, dtype=float),
+                                                            Units(usx, UnitsDimensions(space=0, time=-1, quantity=1))).convert(us0).value])
             out = simulate_script(sc, build.make_engine("euler", lib=_lib))
             data = [float(v) for v in out.data.convert(us0).value]
             t = [float(v) for v in out.t.convert(us0).value]
@@ -73,7 +82,7 @@ def _run(d):
                     cg[name] = {"x0": [float(v) for v in cs.state.convert(us0).value],
                                 "vol": [float(v) for v in cs.space.get_cell_vol_array().convert(us0).value],
                                 "data": [float(v) for v in o2.data.convert(us0).value]}
-            msg = pickle.dumps(("ok", {"x0": x0, "dxdt": dx, "data": data, "t": t, "cg": cg, "x0w": x0w, "x0a": x0a,
+            msg = pickle.dumps(("ok", {"x0": x0, "dxdt": dx, "data": data, "t": t, "cg": cg, "x0w": x0w, "x0a": x0a, "dxf": dxf,
                                        "out_units": [su["space"], su["time"], su["quantity"]]}))
         except BaseException as e:  # noqa
             msg = pickle.dumps(("exc", repr(e)[:300]))
@@ -283,6 +292,12 @@ def run(tier, selftest=False, only=None):
         for what, name in (("x0w", "entries-rewritten-as-bare-numbers"), ("x0a", "state-reassigned-as-bare-numbers")):
             if not close_vec(ref["x0"], got[what], atol=tol["x0"]):
                 rep.violation("units", "units:x0-differs:" + name, dict(tag, reference=ref["x0"][:12], got=got[what][:12]))
+        if got.get("dxf"):
+            for k_, vec in enumerate(got["dxf"]):
+                if not close_vec(ref["dxdt"], vec, atol=tol["dxdt"]):
+                    rep.violation("units", "units:make_dxdtf-differs:" + ("own-units" if k_ == 0 else "default-units"),
+                                  dict(tag, reference=ref["dxdt"][:12], got=vec[:12]))
+                    break
         if (ref["cg"] is None) != (got["cg"] is None):
             rep.violation("units", "units:coarse-grained-route-availability", dict(tag, reference=ref["cg"] is not None))
         elif ref["cg"]:
